@@ -64,7 +64,7 @@ class C13Ops(Harness):
         x = {"f": cx.ints("f", 2, 0, 50), "q": cx.ints("q", 2, 0, 50), "g": cx.ints("g", 2, 0, 50), "k": cx.int("k", 1, 8), "n": cx.pyint("n", 1, 3), "v": cx.pyfloat("v")}
         if p["op"] == "setdtype":
             # contents that may be fractional / out of range for the target
-            x["big"] = cx.int("big", 0, 70000)
+            x["big"] = cx.int("big", 0, 70000 if p["t0"] != "float64" else 1048576)
             x["frac"] = cx.int("frac", 0, 3)
         if cx.sym and p["op"] == "setdtype":
             big, frac = cx.t(x["big"]), cx.t(x["frac"])
@@ -73,7 +73,11 @@ class C13Ops(Harness):
                 cx.assume(big <= 2048)
             elif p["t1"] == "float16":
                 cx.assume(z3.Or(big <= 2048, big >= 65536))
-            cx.assume(z3.Or(frac == 0, big <= 256))
+            # fractional contents: small ones everywhere; for float64 sources also large ones (a quarter beside 2^17 .. 2^20 - far below any relative tolerance)
+            if p["t0"] == "float64":
+                cx.assume(z3.Or(frac == 0, big <= 256, z3.And(big >= 131072, big <= 1048576)))
+            else:
+                cx.assume(z3.Or(frac == 0, big <= 256))
             if p["t0"][0] == "i":
                 cx.assume(big <= int(INFO[p["t0"]]))
         if cx.sym and p["op"] == "fill_float_out":
